@@ -53,6 +53,7 @@ def draw_config(rng, wl, tier):
                          "order": "asc" if rng.random() < 0.35 else "desc",
                          "history": rng.randrange(1, 10**6) if rng.random() < 0.3 else None},
     }
+    cfg["in_child"] = rng.random() < 0.12
     return cfg
 
 
